@@ -123,6 +123,15 @@ CHECKS = {
          "definition's AST over every kind of partially typed line (prefixes of generated sentences + ``, `-`, `--`, name and "
          "command prefixes, `--name` + value, `--name=b`), with value and shell completers.",
          "4/C14", "Rocq proof of the candidate filters (partial) + AST-derived oracle on revision-0 completion output"),
+ "C12": ("proof", "PARTIAL. Theorems in coq/Props/C12.v: the entries collected for --help are EXACTLY the visible leaves of the level "
+         "(`vis`: first short/long name, metavariable, env, help; positionals with help; commands; nothing under hide) in "
+         "declaration order, for every parser shape (C12_items_exact); hide_usage/custom_usage leave the item lists untouched; "
+         "group_help keeps the entries; every name shown for a flag/argument is accepted by its parser; the document is "
+         "description, usage block, header, item lists, footer in that order (closed-prefix invariant over every Doc writer). "
+         "Model/Help.v (Doc builder, normalize, write_meta, append_meta, Dedup, section grouping, render_help) is compared "
+         "TOKEN FOR TOKEN with the library's Doc for --help at every command level on every run. Not a theorem: one "
+         "definition-list entry per non-duplicate item inside the writer, and the usage-line content (oracle / differential only).",
+         "4/C12", "Rocq proof (item list = visible leaves; block order) + token-exact differential of the help Doc + AST oracle"),
 }
 
 NA_REASON = "check not built yet in this revision (machinery under construction; see DESIGN.md section 7 staging)"
